@@ -6,6 +6,8 @@ impl CanonicalRequest {
     pub closed spec fn wf(&self) -> bool {
         &&& forall|k: String| #[trigger] self.query_parameters@.contains_key(k) ==> self.query_parameters@[k]@.len() > 0
         &&& forall|k: String| #[trigger] self.headers@.contains_key(k) ==> self.headers@[k]@.len() > 0
+        &&& forall|k: String, i: int| self.query_parameters@.contains_key(k) && 0 <= i < self.query_parameters@[k]@.len()
+                ==> well_escaped(str_bytes(#[trigger] self.query_parameters@[k]@[i]@))
     }
     pub closed spec fn qp(&self) -> Map<String, Vec<String>> { self.query_parameters@ }
     pub closed spec fn hd(&self) -> Map<String, Vec<Vec<u8>>> { self.headers@ }
